@@ -4,7 +4,7 @@
     value, two-hash function and equality test (in particular for the real
     double SHA-256); [C18_binding] is stated in the symbolic hash algebra [h]. *)
 From Coq Require Import List ZArith NArith Bool.
-From C33 Require Import C18.Model C18.Spec C18.Proofs.
+From C33 Require Import C18.Model C18.Spec C18.ModelServe C18.ProofsServe3 C18.Proofs.
 Import ListNotations.
 
 Theorem C18_parallel_eq_sequential :
@@ -101,6 +101,88 @@ Theorem C18_child_roots_verify :
 Proof. exact child_roots_verify_thm. Qed.
 Print Assumptions C18_child_roots_verify.
 
+(** ** the proof-serving path (ModelServe.v): TransactionSort, the block's TxHash, the
+    para-tx table, ProcQueryTxMsg / getMultiLayerProofs and the client's check *)
+
+(** TransactionSort yields a title-sorted list and leaves a title-sorted list unchanged *)
+Theorem C18_transaction_sort_sorted :
+  forall (T : Type) (l : list (btx T)),
+    tsorted (map bt_title (transaction_sort T l)) = true /\
+    (tsorted (map bt_title l) = true -> transaction_sort T l = l).
+Proof. exact transaction_sort_sorted_thm. Qed.
+Print Assumptions C18_transaction_sort_sorted.
+
+(** full claim: every transaction of every stored block gets a reply that checks against the
+    block's TxHash.  The code accepts received blocks whose list is not in TransactionSort order
+    (util.ExecBlock compares TxHash with the root of the *sorted* list and keeps the list as
+    received), so the claim fails after the fork: finding 1. *)
+Definition C18_served_proofs_verify_full : Prop := served_verify_full_claim.
+
+Theorem C18_served_proofs_verify_refuted : ~ C18_served_proofs_verify_full.
+Proof. exact served_verify_refuted_thm. Qed.
+Print Assumptions C18_served_proofs_verify_refuted.
+
+(** guard [served_guard fork txs] = before the fork, or the stored list is title-sorted:
+    for every hash function with a correct equality test, every block and every index the
+    served reply (single-layer Proofs before the fork; after it the proof inside the child
+    chain with its RootHash + the proof of the child-chain root, or the one single-layer
+    TxProof of a one-chain block) checks against the block's TxHash *)
+Theorem C18_served_proofs_verify_partial :
+  forall (T : Type) (nilT : T) (hash2 : T -> T -> T) (eqT : T -> T -> bool),
+    (forall x y, eqT x y = true <-> x = y) ->
+    forall (fork : bool) (ncpu : Z) (txs : list (btx T)) (i : nat) (x : btx T),
+      served_guard fork txs = true -> nth_error txs i = Some x ->
+      exists root reply,
+        block_txhash T nilT hash2 fork ncpu txs = Some root /\
+        proc_query_tx T nilT hash2 eqT fork false ncpu txs i = Some reply /\
+        verify_reply T hash2 eqT fork root (bt_hash x) (bt_full x) reply = true.
+Proof. exact served_verify_partial_thm. Qed.
+Print Assumptions C18_served_proofs_verify_partial.
+
+(** unguarded for the blocks the producers build (util.CreateNewBlock, solo): any mix of
+    main-chain and para-chain transactions in any order, put into TransactionSort order after the fork *)
+Theorem C18_served_proofs_verify :
+  forall (T : Type) (nilT : T) (hash2 : T -> T -> T) (eqT : T -> T -> bool),
+    (forall x y, eqT x y = true <-> x = y) ->
+    forall (fork : bool) (ncpu : Z) (raw : list (btx T)) (i : nat) (x : btx T),
+      let txs := if fork then transaction_sort T raw else raw in
+      nth_error txs i = Some x ->
+      exists root reply,
+        block_txhash T nilT hash2 fork ncpu txs = Some root /\
+        proc_query_tx T nilT hash2 eqT fork false ncpu txs i = Some reply /\
+        verify_reply T hash2 eqT fork root (bt_hash x) (bt_full x) reply = true.
+Proof. exact produced_verify_thm. Qed.
+Print Assumptions C18_served_proofs_verify.
+
+(** binding (symbolic algebra): whatever reply checks for two transactions against the same
+    non-nil TxHash is about the same (full) hash; in particular the reply served for
+    transaction i of a block checks for no other hash *)
+Theorem C18_served_proof_binding :
+  forall (fork : bool) (root h1 f1 h2 f2 : h) (r : reply h),
+    root <> HNil ->
+    verify_reply h sym_hash2 h_eqb fork root h1 f1 r = true ->
+    verify_reply h sym_hash2 h_eqb fork root h2 f2 r = true ->
+    if fork then f1 = f2 else h1 = h2.
+Proof. exact served_binding_thm. Qed.
+Print Assumptions C18_served_proof_binding.
+
+Theorem C18_served_block_binding :
+  forall (fork : bool) (ncpu : Z) (txs : list (btx h)) (i : nat) (x : btx h) (root : h)
+         (r : reply h) (h' f' : h),
+    served_guard fork txs = true -> forallb leaf_tx txs = true ->
+    nth_error txs i = Some x ->
+    block_txhash h HNil sym_hash2 fork ncpu txs = Some root ->
+    proc_query_tx h HNil sym_hash2 h_eqb fork false ncpu txs i = Some r ->
+    verify_reply h sym_hash2 h_eqb fork root h' f' r = true ->
+    if fork then f' = bt_full x else h' = bt_hash x.
+Proof. exact served_block_binding_thm. Qed.
+Print Assumptions C18_served_block_binding.
+
+(** the equality test of the symbolic algebra is correct (hypothesis of the theorems above) *)
+Theorem C18_h_eqb_correct : forall a b : h, h_eqb a b = true <-> a = b.
+Proof. exact h_eqb_ok_thm. Qed.
+Print Assumptions C18_h_eqb_correct.
+
 (** non-vacuity: concrete instances in the symbolic algebra *)
 Example C18_example_duptail :
   let l1 := map Leaf [1; 2; 3; 4; 5; 6]%N in
@@ -122,3 +204,25 @@ Example C18_example_parallel_and_branch :
     = get_merkle_root h HNil sym_hash2 ls.
 Proof. exact example_parallel_and_branch. Qed.
 Print Assumptions C18_example_parallel_and_branch.
+
+(** main + two para chains, grouped: guard holds, the served reply for index 4 is the proof in
+    its chain plus the proof of the chain root; the same transactions stored in reverse order
+    fail the guard and the served reply does not check *)
+Example C18_example_served :
+  served_guard true ex_txs = true /\ forallb leaf_tx ex_txs = true /\
+  transaction_sort h (rev ex_txs) <> rev ex_txs /\
+  block_txhash h HNil sym_hash2 true 4 ex_txs =
+    Some (H2 (H2 (H2 (H2 (Leaf 11) (Leaf 12)) (H2 (Leaf 13) (Leaf 13))) (H2 (Leaf 14) (Leaf 15)))
+             (H2 (Leaf 16) (Leaf 16))) /\
+  proc_query_tx h HNil sym_hash2 h_eqb true false 4 ex_txs 4 =
+    Some (mk_reply [] [mk_txproof [Leaf 14] 1%N (Some (H2 (Leaf 14) (Leaf 15)));
+                       mk_txproof [H2 (H2 (Leaf 11) (Leaf 12)) (H2 (Leaf 13) (Leaf 13)); H2 (Leaf 16) (Leaf 16)]
+                                  1%N None] (Leaf 15) 4%N) /\
+  served_guard true (rev ex_txs) = false /\
+  proc_query_tx h HNil sym_hash2 h_eqb true false 4 (rev ex_txs) 0 =
+    Some (mk_reply [] [mk_txproof [] 0%N (Some (Leaf 16)); mk_txproof [Leaf 16] 0%N None] (Leaf 16) 0%N) /\
+  (forall root r, block_txhash h HNil sym_hash2 true 4 (rev ex_txs) = Some root ->
+     proc_query_tx h HNil sym_hash2 h_eqb true false 4 (rev ex_txs) 0 = Some r ->
+     verify_reply h sym_hash2 h_eqb true root (Leaf 6) (Leaf 16) r = false).
+Proof. exact example_served_thm. Qed.
+Print Assumptions C18_example_served.
